@@ -407,6 +407,27 @@ fn run_c15(sc: &Scenario, keep_log: bool) -> (Vec<Violation>, Outcome) {
                     }
                     out.count("drift_events", 1);
                 }
+                // postcondition of the eviction sweep: a store that started above the limit ends
+                // with the usage at most limit + the record it wrote (either enough was evicted, or
+                // the store ran empty and the counter was reset to that record)
+                if single && acc_prev > limit {
+                    let (c, idx) = pending[0];
+                    let f = d.conns[c].frames[idx].clone();
+                    let info = op_info(f.req.opcode);
+                    let st = f.response.as_ref().map(|r| r.status).unwrap_or(0);
+                    let stores = matches!(info.kind, Kind::Set | Kind::Add | Kind::Replace | Kind::Append | Kind::Prepend | Kind::Incr | Kind::Decr);
+                    if stores && st == status::OK {
+                        if let Some(l) = d.exec.record_len(&f.req.key) {
+                            if acc_now > limit.saturating_add(l) && seen_sigs.insert("sweep-leaves-usage-over-limit") {
+                                viols.push(Violation::new(
+                                    "C15",
+                                    "sweep-leaves-usage-over-limit",
+                                    format!("a {:?} that started with the accounted usage {} above the limit {} ended with {} accounted although only {} bytes in {} records are stored (record written: {} bytes): the eviction sweep neither evicted enough nor reset the counter", info.kind, acc_prev, limit, acc_now, now.stored_bytes, now.items, l),
+                                ));
+                            }
+                        }
+                    }
+                }
                 if now.items == 0 && acc_now != 0 && prev.items != 0 {
                     out.count("empty_store_with_nonzero_accounting", 1);
                 }
